@@ -77,6 +77,7 @@ def rand_policies(rng):
         shapes[name] = shape
     shapes['default'] = 'builtin'
     shapes['public'] = 'builtin'
+    shapes['open'] = 'builtin'
     return pols, shapes
 
 
@@ -183,7 +184,7 @@ def run_case(ctx, case):
             # one helper object per user for wrapping probes (own, active, wrap bit, public policy)
             helpers = {}
             for u in USERS:
-                h = store.register(srv, 'sym', u, rng, policy='public', state='active', names=['helper-' + u])
+                h = store.register(srv, 'sym', u, rng, policy='open', state='active', names=['helper-' + u])
                 if h:
                     helpers[u] = h.uid
                     creators[int(h.uid)] = u
